@@ -9,4 +9,6 @@ import (
 )
 
 // VerifParseMetadataQuery exposes parseMetadataQuery for the exact correspondence check (overlay-mounted, tag verif).
-func VerifParseMetadataQuery(r *http.Request, param string) metadata.MD { return parseMetadataQuery(r, param) }
+func VerifParseMetadataQuery(r *http.Request, param string) metadata.MD {
+	return parseMetadataQuery(r, param)
+}
